@@ -113,6 +113,9 @@ var c16Leaves = []c16Leaf{
 	{"[][]named", rt[[][]NInt](), rt[[]Names]()}, {"map[string]map[string]int", rt[map[string]map[string]int](), rt[map[string]Labels]()},
 	{"[3]int", rt[[3]int](), rt[[2]NStr]()}, {"[2][]string", rt[[2][]string](), rt[[0]int]()},
 	{"*int", rt[*int](), rt[PInt]()}, {"*string", rt[*string](), rt[PNStr]()}, {"*named", rt[*NInt64](), rt[*NStr]()},
+	// pointers as collection elements (a document may hold null for one of them)
+	{"[]*duration", rt[[]*time.Duration](), rt[[]*NDur]()}, {"map[string]*duration", rt[map[string]*time.Duration](), rt[map[string]*NDur]()},
+	{"[]*int", rt[[]*int](), rt[[]*NStr]()}, {"map[string]*string", rt[map[string]*string](), rt[map[string]*NInt]()},
 	{"**scalar", rt[**int](), rt[**NStr]()}, {"***bool", rt[***bool](), rt[**NBool]()}, {"*[]string", rt[*[]string](), rt[*Names]()}, {"*map", rt[*map[string]int](), rt[*Labels]()},
 }
 
